@@ -238,3 +238,8 @@ def run(ctx):
     for rr in ctx.rules:
         if rr.id == "C11.R11":
             rr.id = "C06.R8"
+    from . import c01
+    ctx.guard(c01.rule_r13)          # an empty message is a message: its (absent) body is not read from the stream
+    for rr in ctx.rules:
+        if rr.id == "C01.R13":
+            rr.id = "C06.R9"
